@@ -11,6 +11,7 @@
 -/
 import TypelibModel.Lemmas.RoundTrip
 import TypelibModel.Lemmas.LeafRT
+import TypelibModel.Lemmas.EnumRT
 import TypelibModel.Props.C01
 namespace Typelib.C13
 open Typelib
@@ -92,7 +93,6 @@ structure PassLaws (S : Scalar → Bool) (leaf : Scalar → Val → Bool) (lit :
     (env : Env) (L : Leaves) : Prop where
   leafPass : ∀ s v, S s = true → leaf s v = true → L.um s v = .ok v
   litPass : ∀ vs v, vs.all isPrim = true → lit vs v = true → pyMem? env v vs = some true
-  enumPass : ∀ c i, (memberValue env c i).isSome = true → umEnum env L c (.member c i) = .ok (.member c i)
 
 theorem load_coll (env : Env) (L : Leaves) {k : Coll} {v : Val} {xs : List Val} (h : collOf k v = some xs) :
     load env L v = .ok v := by
@@ -124,7 +124,7 @@ theorem passthroughG (S : Scalar → Bool) (leaf : Scalar → Val → Bool) (lit
         simp only [Bool.and_eq_true, beq_iff_eq] at hty
         obtain ⟨hc, hsome⟩ := hty
         subst hc
-        simp [um, hL.enumPass c' i hsome]
+        simp [um, umEnum_member env L c' i]
       | _ => simp at hty
     | literal vs =>
       simp only [hasTypeG] at hty
@@ -294,26 +294,69 @@ theorem passthroughG (S : Scalar → Bool) (leaf : Scalar → Val → Bool) (lit
       simp only [wfTy] at hwf
       simp [um, ih t' v hwf hty]
 
-/-- A member of an enum without `str` mix-in is returned unchanged. -/
-theorem enumPass_of_noStrMixin (env : Env) (L : Leaves) (h : ∀ c, isStrMixin env c = false) :
-    ∀ c i, (memberValue env c i).isSome = true → umEnum env L c (.member c i) = .ok (.member c i) := by
-  intro c i _
-  simp [umEnum, load, h c, isMemberOf]
+/-- A member of any enum — str mix-in or not — is returned unchanged, whatever the leaves (since
+    9645d73 the member of a `str` enum is recognised before `serdes.load` reads it as text). -/
+theorem enumPass (env : Env) (L : Leaves) :
+    ∀ c i, (memberValue env c i).isSome = true → umEnum env L c (.member c i) = .ok (.member c i) :=
+  fun c i _ => umEnum_member env L c i
 
-/-- **C13 on the unconditional core** (int, bool, float, str; enums without str mix-in). -/
+/-- Kept for its users: the special case without str mix-in. -/
+theorem enumPass_of_noStrMixin (env : Env) (L : Leaves) (_h : ∀ c, isStrMixin env c = false) :
+    ∀ c i, (memberValue env c i).isSome = true → umEnum env L c (.member c i) = .ok (.member c i) :=
+  enumPass env L
+
+/-- The pass-through laws of the executable leaves on U₀: no condition on the environment. -/
+theorem passLaws_core (env : Env) (today : Int) :
+    PassLaws S0 hasScalar (fun vs v => Val.exactMem v vs) env (pyLeaves env today) :=
+  { leafPass := pyLeaves_pass env today
+    litPass := fun vs v hp hm => (C01.literal_pyMem env vs v hp hm).1 }
+
+/-- **C13 on the unconditional core** (int, bool, float, str and EVERY enum, str mix-in or not, under
+    every composite constructor, class flavour, wrapper and recursion): the only hypotheses are the
+    decidable `wfEnv`, `wfTy` and validity of the value. -/
 theorem passthrough_core (env : Env) (today : Int) (hE : wfEnv S0 env = true)
-    (hns : ∀ c, isStrMixin env c = false) (n : Nat) (t : Ty) (v : Val)
+    (n : Nat) (t : Ty) (v : Val)
     (hwf : wfTy S0 env t = true) (hty : hasType env n t v = true) :
-    um env (pyLeaves env today) n t v = .ok v := by
-  apply passthroughG S0 hasScalar (fun vs v => Val.exactMem v vs) env (pyLeaves env today) hE ?_ n t v hwf hty
-  exact {
-    leafPass := pyLeaves_pass env today
-    litPass := fun vs v hp hm => (C01.literal_pyMem env vs v hp hm).1
-    enumPass := enumPass_of_noStrMixin env _ hns }
+    um env (pyLeaves env today) n t v = .ok v :=
+  passthroughG S0 hasScalar (fun vs v => Val.exactMem v vs) env (pyLeaves env today) hE
+    (passLaws_core env today) n t v hwf hty
 
 /-- Non-vacuity: the C01 example value passes through unchanged. -/
 example : um C01.exEnv (pyLeaves C01.exEnv) 12 C01.exTy C01.exVal = .ok C01.exVal :=
-  passthrough_core C01.exEnv 0 (by decide) (by intro c; match c with | 0 => rfl | _ + 1 => rfl) 12 _ _ (by decide) (by decide)
+  passthrough_core C01.exEnv 0 (by decide) 12 _ _ (by decide) (by decide)
+
+/-! ### Enums: str mix-ins -/
+
+/-- `class SE(str, Enum): A = "a"; ONE = "1"; N = "null"` and a dataclass with a field of it. -/
+def exStrEnumEnv : Env :=
+  [{ flavour := .plain, mixin := .str,
+     members := [("A".toList, .str "a".toList), ("ONE".toList, .str "1".toList), ("N".toList, .str "null".toList)] },
+   { flavour := .dataclass, fields := [("tag".toList, .enum 0), ("alt".toList, .union [.none, .enum 0])],
+     required := ["tag".toList, "alt".toList] }]
+
+/-- Members of a str-mixin enum whose values read as a number / as null pass through. -/
+example : um exStrEnumEnv (pyLeaves exStrEnumEnv) 4 (.cls 1)
+      (.inst 1 [("tag".toList, .member 0 1), ("alt".toList, .member 0 2)])
+    = .ok (.inst 1 [("tag".toList, .member 0 1), ("alt".toList, .member 0 2)]) :=
+  passthrough_core exStrEnumEnv 0 (by decide) 4 _ _ (by decide) (by decide)
+/-- The int- and str-valued enums of the C01 example. -/
+example : um C01.exEnumEnv (pyLeaves C01.exEnumEnv) 5 (.cls 2) C01.exEnumVal = .ok C01.exEnumVal :=
+  passthrough_core C01.exEnumEnv 0 (by decide) 5 _ _ (by decide) (by decide)
+
+/-- `class SE(str, Enum): A = '"b"'; B = 'b'`: the text of `SE.A` is the JSON spelling of the value
+    of `SE.B`.  Before 9645d73 `unmarshal(SE, SE.A)` was `SE.B` (the member was `load`ed as text and
+    looked up by value); the round trip through the *value* is still shadowed (C01 `enumWF`, known
+    finding `enumValueShadow`), the member itself now passes through. -/
+def shadowStrEnv : Env :=
+  [{ flavour := .plain, mixin := .str,
+     members := [("A".toList, .str "\"b\"".toList), ("B".toList, .str "b".toList)] }]
+
+example : enumWF shadowStrEnv = false := by decide
+example : um shadowStrEnv (pyLeaves shadowStrEnv) 2 (.enum 0) (.member 0 0) = .ok (.member 0 0) :=
+  passthrough_core shadowStrEnv 0 (by decide) 2 _ _ (by decide) (by decide)
+example : um shadowStrEnv (pyLeaves shadowStrEnv) 2 (.enum 0) (.member 0 0) = .ok (.member 0 0) := by rfl
+/-- … while its wire text still finds the other member first (that is C01's business). -/
+example : um shadowStrEnv (pyLeaves shadowStrEnv) 2 (.enum 0) (.str "\"b\"".toList) = .ok (.member 0 1) := by rfl
 
 /-- Adversarial values of the quantifier, evaluated by the model: a `str` that reads as JSON in a
     `str` field, a named tuple whose first field is a 2-character string. -/
